@@ -36,3 +36,8 @@ add("C09", "exploration", "prefix-selection reference model applied recursively 
     "paths; the leaf reached, its root/path, the conservation of root+path and the request state after a 404 (per mount level) are compared with the model. Hosts tables of overlapping "
     "patterns are compared with first-fullmatch selection.",
     "Trusts the 10-line selection model; host pattern language is Python's re.")
+add("C13", "exploration", "header-hygiene predicate at the server boundary (also icontract.ensure on the real list_headers) + reject-at-mutation monitor on all 8 mutation paths + independent RFC 6265 attribute splitter; bounded-exhaustive hostile strings",
+    "Every string up to length 3 over a 15-character hostile alphabet (CR, LF, NUL, ';', ',', '=', quotes, backslash, controls, non-ASCII), alone and inside carriers, is pushed through each "
+    "mutation path of the header mapping (as value and as name), used as cookie name, cookie value and redirect target, and the responses are emitted through both server emulators; "
+    "every emitted header pair is checked for CR/LF/NUL, Set-Cookie lines are split by an independent reader and compared with the attribute set asked for, Location must be visible ASCII.",
+    "Constructor-supplied headers and cookie path/domain are outside the quantifier; values above U+00FF may be un-emittable (tolerated).")
